@@ -46,6 +46,42 @@ def glueOK (bytes : List Char) (f : TFile) : Bool :=
 def headerLinesT (h : List Char) : List (List Tok) :=
   if h.isEmpty then [] else (splitLines h []).map (fun l => (splitWs l []).map Tok.raw)
 
+
+/-- UTF-8 bytes of a character list, hex-encoded (`-` = empty); equals `encHex` on ASCII -/
+def encHexU (cs : List Char) : String :=
+  if cs.isEmpty then "-" else
+  String.ofList ((String.ofList cs).toUTF8.toList.flatMap (fun b => [hexNib (b.toNat / 16), hexNib (b.toNat % 16)]))
+
+/-- hex-encoded UTF-8 text -> characters (invalid UTF-8 is rejected) -/
+def pText : P (List Char) := do
+  let b ← pBytes
+  match String.fromUTF8? (ByteArray.mk (b.map (fun c => c.toNat.toUInt8)).toArray) with
+  | some s => pure s.toList
+  | none => failure
+
+def allSome {α} : List (Option α) → Option (List α)
+  | [] => some []
+  | none :: _ => none
+  | some a :: r => (allSome r).map (a :: ·)
+
+def rectangular (t : List (List Rat)) : Bool :=
+  !t.isEmpty && !(t.headD []).isEmpty && t.all (fun r => r.length = (t.headD []).length)
+
+/-- `Interpolation_2D::Save_Function` of a model object: bytes, then the exact `(x, y, f)` triples -/
+def save2Answer (o : Interp.Obj2) (xp yp : Nat) : String :=
+  let xlo := o.ox.x 0
+  let xhi := o.ox.x (o.ox.N - 1)
+  let ylo := o.oy.x 0
+  let yhi := o.oy.x (o.oy.N - 1)
+  let yp' := if yp = 0 then xp else yp
+  let xs := C19.linearSpace xlo xhi xp
+  let ys := C19.linearSpace ylo yhi yp'
+  match allSome (xs.flatMap (fun x => ys.map (fun y => (interp2Value o x y).map (fun v => [x, y, v])))) with
+  | none => "undef"
+  | some trip =>
+    let f (x y : Rat) : Rat := (interp2Value o x y).getD 0   -- every value is `some` here
+    "ok " ++ encHexU (saveFunction2 xlo xhi ylo yhi xp yp f) ++ " " ++ toString trip.length ++ " " ++ showRats trip.flatten
+
 def handle : Handler := fun op args =>
   match op with
   | "c20.fmt" => withArgs pRat args fun x =>
@@ -141,6 +177,50 @@ def handle : Handler := fun op args =>
   | "c20.units" => withArgs (pure ()) args fun _ =>
       "ok " ++ toString unitDefs.length ++ " " ++ (if wellOrdered unitDefs then "wo1" else "wo0") ++ " "
         ++ (if derivedOK unitDefs then "id1" else "id0") ++ " " ++ " ".intercalate (unitDefs.map (·.1))
+  -- coverage extension: Time_Display, Reduced_Mass, Formatted_String, Check_For_Warning, File_Exists, operator<<, Save_Function
+  | "c20.timedisp" => withArgs pRat args fun x =>
+      match timeDisplay? x with
+      | some s => "ok " ++ encHexU s ++ " " ++ showInts (timeSplit timeRatios x).1
+      | none => "undef"
+  | "c20.redmass" => withArgs (do let a ← pRat; let b ← pRat; pure (a, b)) args fun (a, b) =>
+      if a + b = 0 then "undef" else "ok " ++ showRat (reducedMass a b)
+  | "c20.fmtstr" => withArgs (do let s ← pText; let c ← pText; let b ← pBool; let u ← pBool; let g ← pText; pure (s, c, b, u, g)) args
+      fun (s, c, b, u, g) =>
+      let r := formattedString s c b u g
+      "ok " ++ encHexU r.1 ++ " " ++ (if r.2 then "1" else "0") ++ " " ++ encHexU (formattedStringDiag s c b u g)
+  | "c20.warn" => withArgs (do let c ← pBool; let f ← pText; let m ← pText; pure (c, f, m)) args fun (c, f, m) =>
+      "ok " ++ encHexU (checkForWarning c f m)
+  | "c20.fexists" => withArgs tok args fun k =>
+      match k with
+      | "file" => "ok " ++ (if fileExists .file then "1" else "0")
+      | "dir" => "ok " ++ (if fileExists .dir then "1" else "0")
+      | "missing" => "ok " ++ (if fileExists .missing then "1" else "0")
+      | "empty" => "ok " ++ (if fileExists .emptyPath then "1" else "0")
+      | _ => "bad-args"
+  | "c20.vecout" => withArgs pRats args fun v => "ok " ++ encHexU (vecShow v)
+  | "c20.matout" => withArgs pTable args fun t => if rectangular t then "ok " ++ encHexU (matShow t) else "undef"
+  | "c20.dpout" => withArgs (do let a ← pRat; let b ← pRat; pure (a, b)) args fun (a, b) => "ok " ++ encHexU (dpShow a b)
+  | "c20.save1" => withArgs (do let xs ← pRats; let ys ← pRats; let n ← pNat; pure (xs, ys, n)) args fun (xs, ys, n) =>
+      match Interp.mk xs ys (-1) (-1) with
+      | .error _ => "err"
+      | .ok o =>
+        let lo := o.x 0
+        let hi := o.x (o.N - 1)
+        let pts := C19.linearSpace lo hi n
+        match allSome (pts.map (fun x => (interpValue o x).map (fun v => [x, v]))) with
+        | none => "undef"
+        | some pairs =>
+          let f (x : Rat) : Rat := (interpValue o x).getD 0   -- every value is `some` here
+          "ok " ++ encHexU (saveFunction lo hi n f) ++ " " ++ toString pairs.length ++ " " ++ showRats pairs.flatten
+  | "c20.save2" => withArgs (do let xs ← pRats; let ys ← pRats; let t ← pTable; let xp ← pNat; let yp ← pNat; pure (xs, ys, t, xp, yp)) args
+      fun (xs, ys, t, xp, yp) =>
+      match Interp.mk2 xs ys t (-1) (-1) (-1) with
+      | .error _ => "err"
+      | .ok o => save2Answer o xp yp
+  | "c20.save2d0" => withArgs (do let xp ← pNat; let yp ← pNat; pure (xp, yp)) args fun (xp, yp) =>
+      match default2D with
+      | .error _ => "err"
+      | .ok o => save2Answer o xp yp
   | _ => none
 
 def main : IO Unit := driverMain handle
